@@ -327,24 +327,22 @@ impl<E: Effect, R: CommandReceiver<E>, S: EventSender<E>> Worker<E, R, S> {
                 captures,
                 argument,
             } => {
-                // Extract heap data from all captures and argument
-                let mut all_heap_data = Vec::new();
-                let mut extracted_captures = Vec::new();
-
-                for capture in captures {
-                    let (extracted, mut heap) = self
-                        .executor
-                        .extract_heap_data(&capture)
-                        .map_err(|e| EnvironmentError::HeapData(format!("{:?}", e)))?;
-                    extracted_captures.push(extracted);
-                    all_heap_data.append(&mut heap);
-                }
-
-                let (extracted_argument, mut arg_heap) = self
+                // Extract heap data from all captures and the argument *together*, so their
+                // compacted heap indices address one shared `heap` vector (extracting each value
+                // separately restarts every value's indices at 0 and they would alias).
+                let mut bundle = captures;
+                bundle.push(argument);
+                let (extracted, all_heap_data) = self
                     .executor
-                    .extract_heap_data(&argument)
+                    .extract_heap_data(&Value::tuple(quiver_core::types::NIL, bundle))
                     .map_err(|e| EnvironmentError::HeapData(format!("{:?}", e)))?;
-                all_heap_data.append(&mut arg_heap);
+                let Value::Tuple(_, fields) = extracted else {
+                    unreachable!("extract_heap_data preserves the value's shape")
+                };
+                let mut extracted_captures = fields.to_vec();
+                let extracted_argument = extracted_captures
+                    .pop()
+                    .expect("bundle always holds the argument");
 
                 self.sender.send(Event::SpawnAction {
                     caller,
